@@ -153,7 +153,7 @@ def pre_only(ob, V=None):
     st['pc'] = pc; st['pbch'] = 0 if ob['op'] % 2 else (pc if not end else 0); st['pend'] = len(inputs['script']); st['done'] = 0
     st['p2sh'] = 1 if end == 'p2sh' else 0
     st['successor'] = ([0xa9, 0x14] + [var('h%d' % i, 8) for i in range(20)] + [0x87] if end == 'succ-p2sh' else [0x76, 0x51]) if end in ('succ', 'succ-p2sh') else []
-    st['hist'] = [1] * 7; st['hist_top'] = dict(stack=[[inputs['h_s']]], alt=[[inputs['h_a']]], pc=0, nop=inputs['h_n']); st['tce'] = 0
+    st['hist'] = 1; st['hist_top'] = dict(stack=[[inputs['h_s']]], alt=[[inputs['h_a']]], pc=0, nop=inputs['h_n']); st['tce'] = 0
     return st
 
 def replay(lib, ob, cex):
